@@ -179,6 +179,14 @@ impl<T> Iterator for Src<T> {
         }
         r
     }
+    /// a safe iterator may report any hint; mode 2 of `from_iter` / `extend` understates it
+    fn size_hint(&self) -> (usize, Option<usize>) {
+        if crate::ctl::with(|c| c.lie_hint) {
+            (0, Some(0))
+        } else {
+            (0, None)
+        }
+    }
 }
 
 // ------------------------------------------------------------------ map operations
@@ -471,6 +479,9 @@ pub fn map_op<const N: usize>(cx: &mut Cx, m: &mut MapN<N>, op: &MapOp) -> Strin
                 FmtKind::Debug => mm(|| write!(cx.buf, "{:?}", m)).unwrap(),
                 FmtKind::DebugAlt => mm(|| write!(cx.buf, "{:#?}", m)).unwrap(),
                 FmtKind::Display => mm(|| write!(cx.buf, "{}", m)).unwrap(),
+                FmtKind::DisplayPad => mm(|| write!(cx.buf, "{:>30}", m)).unwrap(),
+                FmtKind::DisplayAlt => mm(|| write!(cx.buf, "{:#}", m)).unwrap(),
+                FmtKind::DebugPad => mm(|| write!(cx.buf, "{:30?}", m)).unwrap(),
             }
             esc(&cx.buf.take())
         }
@@ -751,6 +762,9 @@ pub fn set_op<const N: usize>(cx: &mut Cx, s: &mut SetN<N>, op: &SetOp) -> Strin
                 FmtKind::Debug => mm(|| write!(cx.buf, "{:?}", s)).unwrap(),
                 FmtKind::DebugAlt => mm(|| write!(cx.buf, "{:#?}", s)).unwrap(),
                 FmtKind::Display => mm(|| write!(cx.buf, "{}", s)).unwrap(),
+                FmtKind::DisplayPad => mm(|| write!(cx.buf, "{:>30}", s)).unwrap(),
+                FmtKind::DisplayAlt => mm(|| write!(cx.buf, "{:#}", s)).unwrap(),
+                FmtKind::DebugPad => mm(|| write!(cx.buf, "{:30?}", s)).unwrap(),
             }
             esc(&cx.buf.take())
         }
